@@ -85,16 +85,53 @@ Definition put_bool (b : bool) : bytes := [if b then 1 else 0].
 
 Definition blen {A} (bs : list A) : N := N.of_nat (length bs).
 
+(* Base.Bytes.take computes [length bs] first: linear in the REMAINING input at
+   every field.  The decoders below use these two, which walk only what they
+   take ([ctake_eq] / [ntake_eq] / [has_len_eq] in Proof/ClusterCodecBase.v tie
+   them to [take] and [blen]). *)
+Fixpoint ctake (n : nat) (bs : bytes) : option (bytes * bytes) :=
+  match n with
+  | O => Some ([], bs)
+  | S n' => match bs with
+            | [] => None
+            | b :: r => match ctake n' r with
+                        | Some (h, t) => Some (b :: h, t)
+                        | None => None
+                        end
+            end
+  end.
+(* n bytes, n a binary number (declared lengths go up to 2^64-1) *)
+Fixpoint ntake (bs : bytes) (n : N) : option (bytes * bytes) :=
+  match bs with
+  | [] => if n =? 0 then Some ([], []) else None
+  | b :: r => if n =? 0 then Some ([], bs)
+              else match ntake r (n - 1) with
+                   | Some (h, t) => Some (b :: h, t)
+                   | None => None
+                   end
+  end.
+(* n <= len(bs) *)
+Fixpoint has_len {A} (bs : list A) (n : N) : bool :=
+  match bs with
+  | [] => n =? 0
+  | _ :: r => if n =? 0 then true else has_len r (n - 1)
+  end.
+Definition cget_be (w : nat) (bs : bytes) : option (N * bytes) :=
+  match ctake w bs with
+  | Some (h, r) => Some (be_get h, r)
+  | None => None
+  end.
+
 (* the size an [append([]byte(nil), data[off:off+n]...)] copies: [n] is checked
    against the constant bound and against the remaining input first *)
 Definition p_bytes_len (max : N) : parser N :=
   fun bs => match p_uvarint bs with
-            | Some (n, r) => if (n <=? max) && (n <=? blen r) then Some (n, r) else None
+            | Some (n, r) => if (n <=? max) && has_len r n then Some (n, r) else None
             | None => None
             end.
 Definition p_bytes (max : N) : parser bytes :=
-  fun bs => match p_bytes_len max bs with
-            | Some (n, r) => take (N.to_nat n) r
+  fun bs => match p_uvarint bs with
+            | Some (n, r) => if n <=? max then ntake r n else None
             | None => None
             end.
 Definition put_bytes (d : bytes) : bytes := put_uvarint (blen d) ++ d.
@@ -123,7 +160,7 @@ Definition p_count (ck : count_kind) (max : N) : parser (option N) :=
       end
     | CKRem =>
       match p_uvarint bs with
-      | Some (n, r) => if n <=? blen r then Some (Some n, r) else None
+      | Some (n, r) => if has_len r n then Some (Some n, r) else None
       | None => None
       end
     | CKPresRem =>
@@ -133,7 +170,7 @@ Definition p_count (ck : count_kind) (max : N) : parser (option N) :=
         if b =? 0 then Some (None, r0)
         else if b =? 1 then
           match p_uvarint r0 with
-          | Some (n, r) => if n <=? blen r then Some (Some n, r) else None
+          | Some (n, r) => if has_len r n then Some (Some n, r) else None
           | None => None
           end
         else None
@@ -213,10 +250,10 @@ Fixpoint decode {A} (f : fmt A) : parser A :=
   match f in fmt T return parser T with
   | FByte => p_byte
   | FBool => p_bool
-  | FBe w => get_be w
+  | FBe w => cget_be w
   | FUvarint => p_uvarint
   | FVarint => p_varint
-  | FFixed n => take n
+  | FFixed n => ctake n
   | FBytes max => p_bytes max
   | FConst v _ _ => fun bs => Some (v, bs)
   | FSeq fa fb =>
